@@ -56,6 +56,10 @@ def resolver_answer(kind, host, rmode):
     # several addresses per family, listed by the resolver in an order that is neither ascending nor descending as text
     a4, b4, a6, b6 = (V4, '198.51.100.9'), (V4, '198.51.100.10'), (V6, '2001:db8::1'), (V6, '2001:db8::2')
     return {'v4': [(V4, ADDR4)], 'v6': [(V6, ADDR6)], 'v4v6': [(V4, ADDR4), (V6, ADDR6)], 'v6v4': [(V6, ADDR6), (V4, ADDR4)], 'empty': [],
+            # answers with many records (a name behind a big round-robin pool): nine to twenty addresses of one family ahead of the other's
+            'many6-then-4': [(V6, '2001:db8::%x' % i) for i in range(0x10, 0x1c)] + [(V4, ADDR4)],
+            'many4-then-6': [(V4, '198.51.100.%d' % i) for i in range(20, 29)] + [(V6, ADDR6), (V6, '2001:db8::8')],
+            'many-mixed': [x for i in range(10) for x in ((V6, '2001:db8::%x' % (0x30 + i)), (V4, '198.51.100.%d' % (40 + i)))],
             'multi46': [a4, b4, a6, b6], 'multi64': [a6, b6, a4, b4], 'mixed': [a4, a6, b4, b6], 'mixed-rev': [b6, b4, a6, a4],
             'error': socket.gaierror(-2, 'Name or service not known')}[rmode]
 
@@ -122,7 +126,7 @@ def run_case(case, fmt):
 # options select, not only the first one
 def whole_audit_cases():
     out = []
-    for rmode in ('v4v6', 'v6v4', 'v4', 'v6', 'multi46', 'multi64', 'mixed', 'mixed-rev'):
+    for rmode in ('v4v6', 'v6v4', 'v4', 'v6', 'multi46', 'multi64', 'mixed', 'mixed-rev', 'many6-then-4', 'many4-then-6', 'many-mixed'):
         for fam in FAMILY_OPTS:
             for popt in (None, 2022):
                 out.append(('whole', rmode, fam, popt))
